@@ -1,3 +1,136 @@
 package main
 
-func cmdSelftest(args []string) int { return 0 }
+// vcheck selftest: discharges, at reduced widths, the lemmas behind the term rewrites of
+// term.go (they are applied at full width, which the solvers cannot decide directly), and
+// compares the amd64 float->int conversion model with the native build on boundary and
+// pseudo-random values.
+
+import (
+	"fmt"
+	"go/types"
+	"math"
+	"os"
+	"os/exec"
+	"strings"
+)
+
+type lemma struct {
+	name string
+	smt  string // asserts the NEGATION of the lemma; expected answer: unsat
+}
+
+func lemmas() []lemma {
+	var ls []lemma
+	decl8 := "(declare-const a (_ BitVec 8))(declare-const b (_ BitVec 8))"
+	// 1. modular operations commute with truncation (8 <- 16 bits)
+	for _, op := range []string{"bvadd", "bvsub", "bvmul", "bvand", "bvor", "bvxor"} {
+		ls = append(ls, lemma{"narrow-" + op, decl8 + "(declare-const x (_ BitVec 16))(declare-const y (_ BitVec 16))" +
+			fmt.Sprintf("(assert (not (= ((_ extract 7 0) (%s x y)) (%s ((_ extract 7 0) x) ((_ extract 7 0) y)))))", op, op)})
+	}
+	// 2. division of extended operands
+	ls = append(ls, lemma{"sdiv-sext", decl8 + `(assert (not (= (bvsdiv ((_ sign_extend 8) a) ((_ sign_extend 8) b))
+		(ite (and (= a #x80) (= b #xff)) #x0080 ((_ sign_extend 8) (bvsdiv a b))))))`})
+	ls = append(ls, lemma{"srem-sext", decl8 + `(assert (not (= (bvsrem ((_ sign_extend 8) a) ((_ sign_extend 8) b)) ((_ sign_extend 8) (bvsrem a b)))))`})
+	ls = append(ls, lemma{"udiv-zext", decl8 + `(assert (not (= (bvudiv ((_ zero_extend 8) a) ((_ zero_extend 8) b))
+		(ite (= b #x00) #xffff ((_ zero_extend 8) (bvudiv a b))))))`})
+	ls = append(ls, lemma{"urem-zext", decl8 + `(assert (not (= (bvurem ((_ zero_extend 8) a) ((_ zero_extend 8) b)) ((_ zero_extend 8) (bvurem a b)))))`})
+	ls = append(ls, lemma{"sdiv-nonneg-is-udiv", decl8 + `(assert (not (= (bvsdiv ((_ zero_extend 8) a) ((_ zero_extend 8) b)) (bvudiv ((_ zero_extend 8) a) ((_ zero_extend 8) b)))))`})
+	ls = append(ls, lemma{"srem-nonneg-is-urem", decl8 + `(assert (not (= (bvsrem ((_ zero_extend 8) a) ((_ zero_extend 8) b)) (bvurem ((_ zero_extend 8) a) ((_ zero_extend 8) b)))))`})
+	// 3. arithmetic on sign-extended operands at the narrowest non-overflowing width
+	ls = append(ls, lemma{"extarith-mul", decl8 + `(assert (not (= (bvmul ((_ sign_extend 24) a) ((_ sign_extend 24) b))
+		((_ sign_extend 16) (bvmul ((_ sign_extend 8) a) ((_ sign_extend 8) b))))))`})
+	ls = append(ls, lemma{"extarith-add", decl8 + `(assert (not (= (bvadd ((_ sign_extend 24) a) ((_ sign_extend 24) b))
+		((_ sign_extend 23) (bvadd ((_ sign_extend 1) a) ((_ sign_extend 1) b))))))`})
+	ls = append(ls, lemma{"extarith-sub-mixed", decl8 + `(assert (not (= (bvsub ((_ zero_extend 24) a) ((_ sign_extend 24) b))
+		((_ sign_extend 22) (bvsub ((_ zero_extend 2) a) ((_ sign_extend 2) b))))))`})
+	// 4. exact integer arithmetic inside a float format (Float32: 24-bit significand; operands 8 bits)
+	f32 := func(t string) string { return "((_ to_fp 8 24) RNE " + t + ")" }
+	ls = append(ls, lemma{"intfloat-add", decl8 + "(assert (not (= (fp.add RNE " + f32("a") + " " + f32("b") + ") " + f32("(bvadd ((_ sign_extend 1) a) ((_ sign_extend 1) b))") + ")))"})
+	ls = append(ls, lemma{"intfloat-sub", decl8 + "(assert (not (= (fp.sub RNE " + f32("a") + " " + f32("b") + ") " + f32("(bvsub ((_ sign_extend 1) a) ((_ sign_extend 1) b))") + ")))"})
+	ls = append(ls, lemma{"intfloat-mul", decl8 + `(define-fun p () (_ BitVec 16) (bvmul ((_ sign_extend 8) a) ((_ sign_extend 8) b)))
+		(assert (not (= (fp.mul RNE ` + f32("a") + " " + f32("b") + `)
+		(ite (and (= p #x0000) (not (= (bvslt a #x00) (bvslt b #x00)))) (_ -zero 8 24) ` + f32("p") + `))))`})
+	ls = append(ls, lemma{"intfloat-lt", decl8 + "(assert (not (= (fp.lt " + f32("a") + " " + f32("b") + ") (bvslt a b))))"})
+	ls = append(ls, lemma{"intfloat-le", decl8 + "(assert (not (= (fp.leq " + f32("a") + " " + f32("b") + ") (bvsle a b))))"})
+	ls = append(ls, lemma{"intfloat-eq", decl8 + "(assert (not (= (fp.eq " + f32("a") + " " + f32("b") + ") (= a b))))"})
+	ls = append(ls, lemma{"intfloat-round", decl8 + "(assert (not (= (fp.roundToIntegral RTZ " + f32("a") + ") " + f32("a") + ")))"})
+	ls = append(ls, lemma{"intfloat-to-sbv", decl8 + "(assert (not (= ((_ fp.to_sbv 16) RTZ " + f32("a") + ") ((_ sign_extend 8) a))))"})
+	ls = append(ls, lemma{"intfloat-neg", decl8 + `(assert (not (= (fp.neg ` + f32("a") + `) (ite (= a #x00) (_ -zero 8 24) ` + f32("(bvneg ((_ sign_extend 1) a))") + `))))`})
+	ls = append(ls, lemma{"intfloat-unsigned-view", decl8 + "(assert (not (= ((_ to_fp_unsigned 8 24) RNE a) " + f32("((_ zero_extend 1) a)") + ")))"})
+	return ls
+}
+
+func runZ3(script string) string {
+	cmd := exec.Command("/usr/bin/z3", "-in", "-smt2", "-T:60")
+	cmd.Stdin = strings.NewReader("(set-logic ALL)\n" + script + "\n(check-sat)\n")
+	out, _ := cmd.Output()
+	return strings.TrimSpace(string(out))
+}
+
+func cmdSelftest(args []string) int {
+	fail := 0
+	for _, l := range lemmas() {
+		r := runZ3(l.smt)
+		if r != "unsat" {
+			fmt.Printf("LEMMA FAILED %s: %s\n", l.name, r)
+			fail++
+		}
+	}
+	// float -> int conversion model vs the native build
+	in := &interp{tp: NewTermPool()}
+	var vals []float64
+	for _, e := range []float64{0, 1, -1, 0.5, -0.5, 2147483647, 2147483648, -2147483648, -2147483649, 4294967295, 4294967296,
+		9223372036854775807, 9223372036854775808, -9223372036854775808, 18446744073709551615, 18446744073709551616, 1e30, -1e30,
+		math.Inf(1), math.Inf(-1), math.NaN(), 127.9, 128, 255.5, 256, 32767.5, 65535.9, 65536} {
+		vals = append(vals, e, -e, e+0.75, e-0.75)
+	}
+	seed := uint64(88172645463325252)
+	for i := 0; i < 20000; i++ {
+		seed ^= seed << 13
+		seed ^= seed >> 7
+		seed ^= seed << 17
+		vals = append(vals, math.Float64frombits(seed))
+	}
+	mism := 0
+	check := func(name string, got, want uint64, f float64) {
+		if got != want {
+			if mism < 10 {
+				fmt.Printf("CONVERSION MODEL MISMATCH %s(%v): model %#x native %#x\n", name, f, got, want)
+			}
+			mism++
+		}
+	}
+	for _, f := range vals {
+		ft := in.tp.F64(f)
+		ev := func(t *Term) uint64 {
+			v, ok := evalTerm(t, Model{}, map[*Term]uint64{})
+			if !ok {
+				return 0xdeadbeef
+			}
+			return v
+		}
+		check("int64", ev(in.floatToInt(ft, 64, types.Int64)), uint64(int64(f)), f)
+		check("int32", ev(in.floatToInt(ft, 64, types.Int32)), uint64(uint32(int32(f))), f)
+		check("int16", ev(in.floatToInt(ft, 64, types.Int16)), uint64(uint16(int16(f))), f)
+		check("int8", ev(in.floatToInt(ft, 64, types.Int8)), uint64(uint8(int8(f))), f)
+		check("uint32", ev(in.floatToInt(ft, 64, types.Uint32)), uint64(uint32(f)), f)
+		check("uint16", ev(in.floatToInt(ft, 64, types.Uint16)), uint64(uint16(f)), f)
+		check("uint8", ev(in.floatToInt(ft, 64, types.Uint8)), uint64(uint8(f)), f)
+		check("uint64", ev(in.floatToInt(ft, 64, types.Uint64)), uint64(f), f)
+		f32v := float32(f)
+		ft32 := in.tp.F32(f32v)
+		check("f32->int32", ev(in.floatToInt(ft32, 32, types.Int32)), uint64(uint32(int32(f32v))), f)
+		check("f32->uint32", ev(in.floatToInt(ft32, 32, types.Uint32)), uint64(uint32(f32v)), f)
+		check("f32->int64", ev(in.floatToInt(ft32, 32, types.Int64)), uint64(int64(f32v)), f)
+	}
+	if mism > 0 {
+		fmt.Printf("float->int model: %d mismatches on %d values\n", mism, len(vals))
+		fail++
+	}
+	if fail > 0 {
+		fmt.Fprintf(os.Stderr, "selftest: %d failures\n", fail)
+		return 1
+	}
+	fmt.Printf("selftest ok: %d rewrite lemmas unsat at reduced width; float->int model agrees with the native build on %d values\n", len(lemmas()), len(vals))
+	return 0
+}
